@@ -22,7 +22,8 @@ MOLS = {
     'NH3': ['NH3', '14N-1H3'],
     'CO': ['CO', '12C-16O'],
 }
-PAIRS = ['H2-H2', 'H2-He', 'N2-N2']
+# (H2-H is a HITRAN pair whose name is contained in two others)
+PAIRS = ['H2-H2', 'H2-He', 'N2-N2', 'H2-H', 'CO2-CO2', 'O2-CO2']
 XFORMATS = ['pickle', 'hdf5', 'exo']
 KFORMATS = ['kpickle', 'khdf5']
 
@@ -80,7 +81,7 @@ def generate(run_seed, tier):
     shape = {m: [c.randint(2, 4), c.randint(2, 5), c.randint(5, 24)]
              for m in sorted(MOLS)}
     # CIA: one container per pair per directory; two directories
-    pairs = c.sample(PAIRS, c.randint(1, 2))
+    pairs = c.sample(PAIRS, c.randint(1, 3))
     cia_dirs = []
     for d in range(2):
         files = []
@@ -97,7 +98,11 @@ def generate(run_seed, tier):
         for m in kmols:
             f = c.choice(KFORMATS)
             files.append({'mol': m, 'fmt': f, 'file': _fname(c, m, f),
-                          'unit': c.choice(sorted(ST.PRESSURE_UNITS))})
+                          'unit': c.choice(sorted(ST.PRESSURE_UNITS)),
+                          # the name recorded inside a pickled k-table may
+                          # carry an underscore tag (resolution, line list)
+                          'ktag': c.choice(['', '', '_R100', '_HITEMP2010',
+                                            '_hot'])})
         kt_dirs.append(files)
     cfg = {'tabseed': c.randrange(2**31), 'dirs': dirs, 'shape': shape,
            'mols': mols, 'pairs': pairs, 'cia_dirs': cia_dirs,
@@ -162,7 +167,7 @@ def generate(run_seed, tier):
                 ops.append(['add_cia_obj', o.choice(pairs), o.randrange(2),
                             o.choice(['add', 'load_single', 'load_list'])])
         elif r < 0.97:
-            ops.append(['set_kt_path', o.randrange(2)])
+            ops.append(['set_kt_path', o.randrange(2), o.random() < 0.5])
         else:
             ops.append(['get_kt', o.choice(kmols), o.random(), o.random()])
             if o.random() < 0.15:
@@ -369,10 +374,13 @@ def execute(case, keep_text=False):
                          'x': x.tolist(), 'blocks': blocks}
         return tabs[key]
 
-    def kttab(mol):
-        key = ('k', mol, 0)
+    def kttab(mol, d=0):
+        # (each directory holds its own table of the molecule: what is served
+        # tells which directory it came from)
+        key = ('k', mol, d)
         if key not in tabs:
-            rs = np.random.RandomState(H(cfg['tabseed'], 'kt', mol) % 2**32)
+            rs = np.random.RandomState(H(cfg['tabseed'], 'kt', mol, d)
+                                       % 2**32)
             nT, nP, nW = cfg['shape'][mol]
             t = ST.make_xsec_table(rs, nT, nP, nW, logmag=tuple(cfg['logmag']))
             ng = rs.randint(2, 5)
@@ -438,13 +446,13 @@ def execute(case, keep_text=False):
             else:
                 ST.write_hitran_cia(path, f['pair'], t['blocks'])
     kt_paths = [os.path.join(base, 'kt%d' % i) for i in range(2)]
-    for dp, files in zip(kt_paths, cfg['kt_dirs']):
+    for di_, (dp, files) in enumerate(zip(kt_paths, cfg['kt_dirs'])):
         os.makedirs(dp)
         for f in files:
-            t = kttab(f['mol'])
+            t = kttab(f['mol'], di_)
             path = os.path.join(dp, f['file'])
             if f['fmt'] == 'kpickle':
-                ST.write_pickle_ktable(path, t, f['mol'])
+                ST.write_pickle_ktable(path, t, f['mol'] + f.get('ktag', ''))
             else:
                 ST.write_hdf5_ktable(path, t, f['unit'])
 
@@ -987,9 +995,14 @@ def execute(case, keep_text=False):
                         KTableCache().set_ktable_path(kt_paths[op[1] % 2])
                     else:
                         GlobalCache()['ktable_path'] = kt_paths[op[1] % 2]
-                    KTableCache().clear_cache()
                     ref['kt_path'] = op[1] % 2
-                    ref['kt_served'] = {}
+                    if len(op) > 2 and not op[2]:
+                        # no clear: what is loaded stays, what is requested
+                        # next comes from the newly configured directory
+                        out.bump('probes', 'ktable_path_changed_without_clear')
+                    else:
+                        KTableCache().clear_cache()
+                        ref['kt_served'] = {}
                 elif k == 'get_kt':
                     mol = op[1]
                     if ref['kt_path'] is None:
@@ -1017,7 +1030,8 @@ def execute(case, keep_text=False):
                     if served is not None and obj is not served['obj']:
                         viol('not-loaded-once', 'ktable', mol, step)
                         raise Stop()
-                    t = kttab(mol)
+                    t = kttab(mol, served['dir'] if served is not None
+                              else ref['kt_path'])
                     fmt = fmt_of(obj)
                     if served is None:
                         if obj.moleculeName != mol:
@@ -1035,7 +1049,8 @@ def execute(case, keep_text=False):
                                  % mol, step)
                             raise Stop()
                         ref['kt_served'][mol] = {'obj': obj,
-                                                 'interp': ref['interp']}
+                                                 'interp': ref['interp'],
+                                                 'dir': ref['kt_path']}
                         formats_loaded.add(fmt)
                         out.bump('steps', 'loads:' + fmt)
                     mode = ref['kt_served'][mol]['interp']
